@@ -589,16 +589,21 @@ func TestVfTimeoutWiring(t *testing.T) {
 		yaml   string // the dialogTimeout line's value, "" = key absent
 		env    string // "" = unset
 		probes []int  // ms after the answer
+		prev   string // dialogTimeout of ANOTHER service configured ahead of this one in the same file ("" = no other service)
 	}
 	cases := []tc{
-		{"yaml-1", "1", "", []int{300, 1250}},
-		{"env-1", "", "1", []int{300, 1250}},
-		{"yaml-0-env-1", "0", "1", []int{300, 1250}},
-		{"yaml-1-env-50", "1", "50", []int{300, 1250}},
-		{"yaml-2-env-1", "2", "1", []int{1300, 2250}},
-		{"nothing-configured", "", "", []int{300, 1300}},
-		{"env-not-numeric", "", "1s", []int{300, 1300}},
-		{"yaml-negative-env-2", "-1", "2", []int{1300, 2250}},
+		{"yaml-1", "1", "", []int{300, 1250}, ""},
+		{"env-1", "", "1", []int{300, 1250}, ""},
+		{"yaml-0-env-1", "0", "1", []int{300, 1250}, ""},
+		{"yaml-1-env-50", "1", "50", []int{300, 1250}, ""},
+		{"yaml-2-env-1", "2", "1", []int{1300, 2250}, ""},
+		{"nothing-configured", "", "", []int{300, 1300}, ""},
+		{"env-not-numeric", "", "1s", []int{300, 1300}, ""},
+		{"yaml-negative-env-2", "-1", "2", []int{1300, 2250}, ""},
+		// the timeout of a service is its own: another service configured ahead of it in the same file does not lend its value
+		{"second-service-unset-first-has-1", "", "", []int{300, 1300}, "1"},
+		{"second-service-env-2-first-has-1", "", "2", []int{1300, 2250}, "1"},
+		{"second-service-yaml-1-first-has-30", "1", "", []int{300, 1250}, "30"},
 	}
 	if vfEnvInt("VERIF_NTW", len(cases)) < len(cases) {
 		cases = cases[:vfEnvInt("VERIF_NTW", len(cases))]
@@ -616,7 +621,11 @@ func TestVfTimeoutWiring(t *testing.T) {
 	for ci, c := range cases {
 		udp, tcp := vfFreePort(t, la), vfFreePort(t, la)
 		name := fmt.Sprintf("tw%d.example.com", ci)
-		y := fmt.Sprintf("proxies:\n- name: %s\n", name)
+		y := "proxies:\n"
+		if c.prev != "" {
+			y += fmt.Sprintf("- name: other%d.example.com\n  dialogTimeout: %s\n  listens:\n  - address: %s\n    udp-port: %d\n    tcp-port: %d\n", ci, c.prev, la, vfFreePort(t, la), vfFreePort(t, la))
+		}
+		y += fmt.Sprintf("- name: %s\n", name)
 		if c.yaml != "" {
 			y += "  dialogTimeout: " + c.yaml + "\n"
 		}
